@@ -53,7 +53,49 @@ pub mod sync {
             pub fn store(&self, v: bool, o: Ordering) {
                 self.0.store(v, o)
             }
+            pub fn swap(&self, v: bool, o: Ordering) -> bool {
+                self.0.swap(v, o)
+            }
+            pub fn compare_exchange(&self, cur: bool, new: bool, s: Ordering, f: Ordering) -> Result<bool, bool> {
+                self.0.compare_exchange(cur, new, s, f)
+            }
+            pub fn fetch_or(&self, v: bool, o: Ordering) -> bool {
+                self.0.fetch_or(v, o)
+            }
+            pub fn fetch_and(&self, v: bool, o: Ordering) -> bool {
+                self.0.fetch_and(v, o)
+            }
         }
+        impl Default for AtomicBool {
+            fn default() -> Self {
+                AtomicBool::new(false)
+            }
+        }
+        pub struct AtomicUsize(loom::sync::atomic::AtomicUsize);
+        impl AtomicUsize {
+            pub fn new(v: usize) -> Self {
+                AtomicUsize(loom::sync::atomic::AtomicUsize::new(v))
+            }
+            pub fn load(&self, o: Ordering) -> usize {
+                self.0.load(o)
+            }
+            pub fn store(&self, v: usize, o: Ordering) {
+                self.0.store(v, o)
+            }
+            pub fn fetch_add(&self, v: usize, o: Ordering) -> usize {
+                self.0.fetch_add(v, o)
+            }
+            pub fn fetch_sub(&self, v: usize, o: Ordering) -> usize {
+                self.0.fetch_sub(v, o)
+            }
+        }
+        impl Default for AtomicUsize {
+            fn default() -> Self {
+                AtomicUsize::new(0)
+            }
+        }
+        impl std::panic::UnwindSafe for AtomicUsize {}
+        impl std::panic::RefUnwindSafe for AtomicUsize {}
         impl std::panic::UnwindSafe for AtomicBool {}
         impl std::panic::RefUnwindSafe for AtomicBool {}
     }
@@ -66,6 +108,24 @@ pub mod sync {
         #[allow(clippy::should_implement_trait)]
         pub fn clone(this: &Self) -> Self {
             Arc(loom::sync::Arc::clone(&this.0))
+        }
+    }
+    impl<T> Arc<T> {
+        pub fn ptr_eq(a: &Self, b: &Self) -> bool {
+            loom::sync::Arc::ptr_eq(&a.0, &b.0)
+        }
+        pub fn strong_count(a: &Self) -> usize {
+            loom::sync::Arc::strong_count(&a.0)
+        }
+    }
+    impl<T: Default> Default for Arc<T> {
+        fn default() -> Self {
+            Arc::new(T::default())
+        }
+    }
+    impl<T> From<T> for Arc<T> {
+        fn from(v: T) -> Self {
+            Arc::new(v)
         }
     }
     impl<T> Clone for Arc<T> {
@@ -92,6 +152,21 @@ pub mod sync {
             let r = self.0.lock();
             super::trace::leave();
             r
+        }
+    }
+    impl<T> Mutex<T> {
+        pub fn try_lock(&self) -> std::sync::TryLockResult<loom::sync::MutexGuard<'_, T>> {
+            self.0.try_lock()
+        }
+    }
+    impl<T: Default> Default for Mutex<T> {
+        fn default() -> Self {
+            Mutex::new(T::default())
+        }
+    }
+    impl<T> From<T> for Mutex<T> {
+        fn from(v: T) -> Self {
+            Mutex::new(v)
         }
     }
     impl<T> UnwindSafe for Mutex<T> {}
@@ -253,6 +328,16 @@ pub mod thread {
             })
             .expect("spawn");
         JoinHandle(h)
+    }
+    pub fn yield_now() {
+        loom::thread::yield_now()
+    }
+    pub fn current() -> Thread {
+        Thread(loom::thread::current())
+    }
+    pub fn sleep(_d: std::time::Duration) {
+        // time does not exist under the model checker: a sleep is a scheduling point
+        loom::thread::yield_now()
     }
     pub fn park() {
         trace::enter("park");
